@@ -23,6 +23,7 @@ use tokio_util::codec::{Decoder, FramedRead};
 pub enum Msg { Close(u32), Read(u32, Vec<(u16, u32)>), Big(u32) }
 pub enum Case {
     Codec { mms: usize, msl: usize, segs: Vec<Vec<u8>>, kind: String },
+    CodecAll { mms: usize, msl: usize, stream: Vec<u8> },
     Send { max_chunks: usize, msgs: Vec<Msg>, ks: Vec<usize> },
 }
 pub struct P;
@@ -161,6 +162,29 @@ fn cuts_to_segs(stream: &[u8], cuts: &[usize]) -> Vec<Vec<u8>> {
     segs.push(stream[at..].to_vec());
     segs
 }
+/// every segmentation of the stream into non-empty reads against the whole stream, in one case
+fn exec_all(mms: usize, msl: usize, stream: &[u8]) -> Out {
+    let whole = feed(mms, msl, &[stream.to_vec()]);
+    let n = stream.len();
+    let total: u64 = if n == 0 { 1 } else { 1u64 << (n - 1) };
+    let mut ndiff = 0u64;
+    let mut framed_bad = false;
+    for mask in 0..total {
+        let cuts: Vec<usize> = (1..n).filter(|i| mask >> (i - 1) & 1 == 1).collect();
+        let segs = if n == 0 { vec![] } else { cuts_to_segs(stream, &cuts) };
+        let a = feed(mms, msl, &segs);
+        if a != whole { ndiff += 1; }
+        let f = framed(mms, msl, &segs);
+        let a_frames: &[i128] = if a.len() >= 2 && a[a.len() - 2] == -30 { &a[..a.len() - 2] } else { &a[..] };
+        if f != a_frames { framed_bad = true; }
+    }
+    let mut out = whole.clone();
+    out.extend([-7, total as i128, ndiff as i128]);
+    if framed_bad { out.push(-99); }
+    let status = match whole.last() { Some(-10) => "toolarge", Some(-11) => "decerr", Some(-12) => "commerr", _ => if whole[whole.len() - 1] > 0 { "residue" } else { "clean" } };
+    let tag = format!("codec-allseg-n{}-{}frames-{}", n, whole.iter().filter(|x| **x == -20).count(), status);
+    Out { tag, term: format!("(CodecAll {} {} {})", mms, msl, zbytes(stream)), out }
+}
 fn all_segmentations(mms: usize, msl: usize, stream: &[u8], kind: &str, v: &mut Vec<Case>) {
     let n = stream.len();
     for mask in 0u32..(1u32 << (n - 1)) {
@@ -295,7 +319,10 @@ impl Property for P {
         for c in 1..three.len() { v.push(codec(65536, 4096, cuts_to_segs(&three, &[c]), "1cut")); }
         // all segmentations of short streams
         let mut s12 = chunk(b"MSG", b'F', b""); s12.extend(b"E");                       // 13 bytes
-        let n = if tier == "thorough" { 13 } else { 12 };
+        // one case per segmentation (the model is evaluated on each): all of a 10-byte prefix in the quick
+        // tier, of 12..14-byte streams in the thorough tier; the CodecAll cases below cover all
+        // segmentations of 12..14 (thorough: 17) byte streams in one case each
+        let n = if tier == "thorough" { 13 } else { 10 };
         all_segmentations(64, 16, &s12[..n], "all-seg", &mut v);
         if tier == "thorough" {
             let mut s14 = chunk(b"CLO", b'A', b""); s14.extend(b"HE");                   // 14 bytes: a frame and the start of the next
@@ -305,6 +332,34 @@ impl Property for P {
             let mut sbig = header(b"ACK", b'F', 65); sbig.extend([1u8; 4]);              // 12 bytes: over the maximum of 64
             all_segmentations(64, 16, &sbig, "all-seg", &mut v);
             for a in 1..three.len() { for b in a..three.len() { if (a + b) % 3 == 0 { v.push(codec(65536, 4096, cuts_to_segs(&three, &[a, b]), "2cut")); } } }
+        }
+        // every segmentation at once (one case each): a frame and the start of the next, a chunk with
+        // one payload byte, a declared size below the chunk header, a size over the maximum, an
+        // incomplete ERR, an ERR that ends inside its string, a bad type code
+        let call = |mms, msl, stream: Vec<u8>| Case::CodecAll { mms, msl, stream };
+        let mut s14 = chunk(b"CLO", b'A', b""); s14.extend(b"HE");
+        v.push(call(0, 16, s14.clone()));
+        let mut c13 = chunk(b"MSG", b'F', &[1]); c13.push(b'M');
+        v.push(call(64, 16, c13));
+        let mut sbad = header(b"OPN", b'F', 10); sbad.extend([1u8; 5]);
+        v.push(call(0, 16, sbad.clone()));
+        let mut sbig = header(b"ACK", b'F', 65); sbig.extend([1u8; 4]);
+        v.push(call(64, 16, sbig.clone()));
+        let mut e14 = header(b"ERR", b'F', 16); e14.extend([2u8; 6]);
+        v.push(call(0, 16, e14));
+        let mut e9 = header(b"ERR", b'F', 9); e9.extend([3u8; 5]);
+        v.push(call(0, 16, e9));
+        let mut x12 = header(b"XYZ", b'F', 12); x12.extend([0u8; 5]);
+        v.push(call(0, 16, x12));
+        if tier == "thorough" {
+            // a complete ERR frame (null reason) and one byte more: 2^15 and 2^16 segmentations
+            let mut e16 = header(b"ERR", b'F', 16); e16.extend(0x8001_0000u32.to_le_bytes()); e16.extend((-1i32).to_le_bytes());
+            v.push(call(0, 16, e16.clone()));
+            e16.push(b'H');
+            v.push(call(64, 16, e16));
+            let mut two = chunk(b"MSG", b'C', b""); two.extend(header(b"MSG", b'F', 12));   // a frame and most of the next: 20 bytes would be 2^19, keep 17
+            two.truncate(17);
+            v.push(call(0, 16, two));
         }
         // ---- SendBuffer
         let send = |mc, msgs, ks| Case::Send { max_chunks: mc, msgs, ks };
@@ -353,6 +408,26 @@ impl Property for P {
         }
         if r.chance(1, 6) { let n = stream.len(); stream.truncate(n - r.below(std::cmp::min(n, 12) as u64) as usize); }
         if stream.is_empty() { stream.push(b'M'); }
+        if r.chance(1, 12) {
+            // every segmentation of a short stream: a 12..13 byte chunk frame, sometimes damaged, and
+            // the first bytes of what follows
+            let t = *r.pick(&[b"MSG", b"OPN", b"CLO"]);
+            let npl = r.below(2) as usize;
+            let pl = r.bytes(npl);
+            let mut st = chunk(t, *r.pick(&[b'F', b'C', b'A']), &pl);
+            match r.below(8) {
+                0 => { st[r.below(4) as usize] ^= 0x20; }
+                1 => { let sz = r.below(16) as u32; st[4..8].copy_from_slice(&sz.to_le_bytes()); }
+                2 => { let sz = if mms > 0 { mms as u32 + r.below(2) as u32 } else { u32::MAX }; st[4..8].copy_from_slice(&sz.to_le_bytes()); }
+                _ => {}
+            }
+            let tail = [b"HELF".to_vec(), b"MSGF".to_vec(), r.bytes(4)].concat();
+            let extra = r.below(3) as usize;
+            let off = r.below(9) as usize;
+            st.extend(&tail[off..off + extra]);
+            st.truncate(14);
+            return Case::CodecAll { mms, msl, stream: st };
+        }
         let n = stream.len();
         let (kind, cuts): (&str, Vec<usize>) = match r.below(6) {
             0 => ("bytes", (1..n).collect()),
@@ -367,6 +442,7 @@ impl Property for P {
     fn exec(c: &Case) -> Out {
         match c {
             Case::Send { max_chunks, msgs, ks } => exec_send(*max_chunks, msgs, ks),
+            Case::CodecAll { mms, msl, stream } => exec_all(*mms, *msl, stream),
             Case::Codec { mms, msl, segs, kind } => {
                 let a = feed(*mms, *msl, segs);
                 let whole: Vec<u8> = segs.concat();
